@@ -81,12 +81,20 @@ pub fn key_pool(scheme: Scheme, seed: u64) -> Vec<RefKey> {
         v.push(RefKey::new(scheme, one));
         v.push(RefKey::new(scheme, two));
         v.push(RefKey::new(scheme, nm1));
-        // a key whose x coordinate has a leading zero byte
-        for i in 0..4000u64 {
-            let s = secret_from(scheme, 0xabcdef00 + i);
-            if sig::secp_pub(&s).map(|p| p[1] == 0).unwrap_or(false) {
-                v.push(RefKey::new(scheme, s));
+        // keys whose x / y coordinate has a leading zero byte, or a trailing zero byte
+        let mut want: Vec<fn(&[u8; 33], &[u8; 64]) -> bool> = vec![|c, _| c[1] == 0, |_, u| u[32] == 0, |_, u| u[31] == 0 || u[63] == 0];
+        for i in 0..6000u64 {
+            if want.is_empty() {
                 break;
+            }
+            let s = secret_from(scheme, 0xabcdef00 + i);
+            if let Some(c) = sig::secp_pub(&s) {
+                if let Some((_, u)) = sig::secp_normalise(&c) {
+                    if let Some(pos) = want.iter().position(|f| f(&c, &u)) {
+                        want.remove(pos);
+                        v.push(RefKey::new(scheme, s));
+                    }
+                }
             }
         }
     } else {
